@@ -43,6 +43,8 @@ var Prop = &engine.Prop{
 	},
 	ShardsQuick: 4, ShardsThorough: 16,
 	Kinds: []engine.Kind{
+		// must stay first: its first case in a process makes the first codec calls of that process
+		{Name: "cold-start", Quick: 32, Thorough: 64, Fn: coldStartCase},
 		{Name: "fields", Quick: 2000, Thorough: 600000, Fn: fieldsCase},
 		{Name: "order", Quick: 800, Thorough: 240000, Fn: orderCase},
 		{Name: "datestr", Quick: 2000, Thorough: 600000, Fn: dateCase},
